@@ -533,7 +533,7 @@ impl<'w, 'r, 'gc> Cb<'w, 'r, 'gc> {
                 let bad_kind = match kind {
                     Kind::SetInner | Kind::Built { .. } | Kind::ZstShared => true,
                     Kind::Lay { t, len } => *t as usize >= crate::lay::LAYS.len() || *len as usize > crate::lay::MAX_LEN,
-                    Kind::Slice { len } | Kind::Swh { len } => *len > 8,
+                    Kind::Slice { len } | Kind::Swh { len } | Kind::SwhPod { len } => *len > 8,
                     // made by AllocCopy only
                     Kind::CopySlice { .. } | Kind::CopySwh { .. } | Kind::SetInner | Kind::Built { .. } | Kind::ZstShared => true,
                     _ => false,
@@ -965,6 +965,7 @@ impl<'w, 'r, 'gc> Cb<'w, 'r, 'gc> {
     /// `edges`: for the copy-path kinds, the pointers the object is born with.
     fn alloc_made(&mut self, id: Id, kind: Kind, edges: Option<&[Edge<'gc>]>) {
         let a = self.a;
+        let z0 = tok::z_counts();
         let since = seam::mark();
         let mut lay_info = None;
         let any = match kind {
@@ -1022,6 +1023,14 @@ impl<'w, 'r, 'gc> Cb<'w, 'r, 'gc> {
         }
         register(self.w, id, kind, any.addr(), if kind.has_tok() { vec![id] } else { vec![] });
         self.rep.allocated += 1;
+        if kind == Kind::ZLeaf {
+            // a zero-sized value with a destructor: it has been moved into the arena, not dropped
+            let z1 = tok::z_counts();
+            if z1.1 != z0.1 {
+                self.w.violate_with("C04.twice", &["C03.drop-in-callback"], format!("allocating the zero-sized value {id} ran its destructor {} time(s) on the spot (it will be destructed again when it is collected)", z1.1 - z0.1));
+            }
+            self.w.z_pending.insert(id, 1);
+        }
         self.w.sh.objs.get_mut(&id).unwrap().lay = lay_info;
         // C17.extent at allocation: the whole value lies inside the block the allocator handed out
         if let Some(b) = self.w.sh.objs[&id].block {
